@@ -200,9 +200,42 @@ fn with_keywords_directives(text: &str, rng: &mut Rng) -> Option<String> {
 
 const CLASSIFY_MS: u64 = 6000;
 
+/// small sentences whose list lengths vary the pressure on the memo table (how many entries are stored
+/// between two attempts at the same position), around constructs that are tried by several alternatives
+fn stress_sentence(rng: &mut Rng) -> String {
+    let n = rng.range(0, 40);
+    let ids = |k: usize, p: &str| (0..k).map(|i| format!("{}{}", p, i)).collect::<Vec<_>>();
+    match rng.below(8) {
+        0 => {
+            let mut conns = ids(n, "i");
+            conns.push(rng.pick(&["(a ##1 b)", "(a ##[1:3] b)", "a |-> b", "(@(posedge clk) a ##1 b)", "(a and b)"]).to_string());
+            format!("module t; chk c1 (o, {}); endmodule\n", conns.join(", "))
+        }
+        1 => format!("module t; assign x = s ? {} : c; endmodule\n", ids(n + 1, "b").join(" + ")),
+        2 => {
+            let mut e = String::from("z");
+            for i in 0..n.min(12) {
+                e = format!("(A == {}) ? {} - 1 : {}", i, i, e);
+            }
+            format!("module a; localparam a = {}; endmodule\n", e)
+        }
+        3 => format!("module t; assign x = {{{}}}; endmodule\n", ids(n + 1, "p").join(", ")),
+        4 => format!("module t; initial f({}); endmodule\n", ids(n + 1, "q").iter().map(|x| format!("{} + 1", x)).collect::<Vec<_>>().join(", ")),
+        5 => {
+            let items: String = (0..n.min(20) + 1).map(|i| format!("{}: x = {};\n", i, i)).collect();
+            format!("module t; always_comb case (s)\n{}default: x = 0;\nendcase endmodule\n", items)
+        }
+        6 => format!("module t; sub u ({}); endmodule\n", ids(n + 1, "w").iter().map(|x| format!(".{}({}[3:0])", x, x)).collect::<Vec<_>>().join(", ")),
+        _ => format!("module t; property p; @(posedge clk) {} ; endproperty assert property (p); endmodule\n", ids(n.min(12) + 1, "s").join(" ##1 ")),
+    }
+}
+
 pub fn run_case(env: &Env, ctx: &mut Ctx, idx: u64) {
     let mut rng = Rng::derive(ctx.seed, 17, idx, 0);
     let mut inp = workload::tree_input(env, &mut rng);
+    if rng.chance(1, 4) {
+        inp = workload::SvInput { text: stress_sentence(&mut rng), kind: "memo-stress", gram: Gram::Sv };
+    }
     if rng.chance(1, 5) {
         if let Some(t) = with_keywords_directives(&inp.text, &mut rng) {
             inp.text = t;
